@@ -113,9 +113,9 @@ pub async fn start(config_path: &str, real_signals: bool) -> Result<Pooler, Stri
                     let tls_certificate = get_config().general.tls_certificate.clone();
                     pgcat::messages::configure_socket(&socket);
                     let results = results.clone();
-                    // C10 (schedule hooks, off unless HOOK_ACTORS is set): every poll of this client task runs
-                    // with pgcat::verif_hooks' actor id = accept index (1, 2, ..) if that index is listed in
-                    // HOOK_PARK, else 0, so that a `verif_hooks::point` inside the task can park exactly that client.
+                    // C10 (schedule hooks): every poll of this client task runs with pgcat::verif_hooks' actor
+                    // id = accept index (1, 2, ..), so that an armed `verif_hooks::point` inside the task can
+                    // park exactly the clients the scenario named (wire step `hook`).
                     let accept_index = ACCEPTED.fetch_add(1, Ordering::SeqCst) + 1;
                     let h = tokio::task::spawn(WithActor {
                         id: accept_index,
@@ -161,11 +161,12 @@ pub async fn start(config_path: &str, real_signals: bool) -> Result<Pooler, Stri
 
 /// C10: number of client connections accepted so far (the accept index of a client task).
 pub static ACCEPTED: std::sync::atomic::AtomicU64 = std::sync::atomic::AtomicU64::new(0);
-/// C10: when true, client tasks are polled under a verif_hooks actor id (see the accept loop).
+/// C10: true while a scenario has the verif_hooks armed (wire step `hook`).
 pub static HOOK_ACTORS: AtomicBool = AtomicBool::new(false);
-/// C10: accept indices whose tasks may be parked at a verif_hooks point (all others run as actor 0).
-pub static HOOK_PARK: once_cell::sync::Lazy<Mutex<Vec<u64>>> = once_cell::sync::Lazy::new(|| Mutex::new(Vec::new()));
 
+/// C10: polls the wrapped client task with pgcat::verif_hooks' actor id = its accept index (1, 2, ..).
+/// Inert unless the hooks are armed (`verif_hooks::point` returns at once).  The id is set on EVERY poll,
+/// armed or not: a poll that is already running when the harness arms the hooks must carry its id too.
 pub struct WithActor<F> {
     pub id: u64,
     pub fut: std::pin::Pin<Box<F>>,
@@ -174,10 +175,7 @@ pub struct WithActor<F> {
 impl<F: std::future::Future> std::future::Future for WithActor<F> {
     type Output = F::Output;
     fn poll(mut self: std::pin::Pin<&mut Self>, cx: &mut std::task::Context<'_>) -> std::task::Poll<F::Output> {
-        if HOOK_ACTORS.load(Ordering::SeqCst) {
-            let id = if HOOK_PARK.lock().contains(&self.id) { self.id } else { 0 };
-            pgcat::verif_hooks::set_actor(id);
-        }
+        pgcat::verif_hooks::set_actor(self.id);
         self.fut.as_mut().poll(cx)
     }
 }
